@@ -1319,6 +1319,17 @@ class Interp:
                     k_ = self.expr(args[0], env)
                     k_ = k_[1] if isinstance(k_, tuple) else k_
                     return const(64, False, 1 if k_ in o else 0)
+                if name == 'insert' and len(args) == 1 and 'set<' in (tobj or ''):
+                    k_ = self.expr(args[0], env)
+                    k_ = k_[1] if isinstance(k_, tuple) and k_[:1] == ('str',) else (k_.lo if isinstance(k_, IV) and k_.concrete() else None)
+                    if k_ is None:
+                        raise NeedSplit(None, 'set element not concrete at %s' % pos(n))
+                    o.setdefault(k_, True)
+                    return None
+                if name == 'empty':
+                    return const(1, False, int(not o))
+                if name == 'size':
+                    return const(64, False, len(o))
                 raise AnalysisBroken('unmodelled map operation %s at %s' % (name, pos(n)))
             if isinstance(o, tuple) and o and o[0] == 'str' and name in ('c_str', 'data') and self.pointer_model:
                 return ('ptr', o[1], 0)
